@@ -12,14 +12,14 @@ EXPLANATION = ('`c02_sound`: for every well-formed program, any initial inputs a
 ASSUMPTIONS = ['bodies are deterministic', 'multi-threading is out of scope of this property']
 
 def ties(ctx):
-    a, b = (500, 1500) if ctx.tier == 'quick' else (30000, 200000)
+    a, b = (3000, 6000) if ctx.tier == 'quick' else (30000, 200000)
     return [run_seq(ctx, 'core', a, model='core', corpus='CORE-SEQ'), run_seq(ctx, 'core3', b, seed_offset=5)]
 
 def search(ctx, reason):
     for prof, n in (('core', 200000), ('core3', 200000)):
         t = run_seq(ctx, prof, n, seed_offset=78, tag='search-' + prof)
         for f in t.failures:
-            if f.kind == 'oracle':
+            if f.kind == 'oracle' and f.key not in listed_keys():
                 return f
     return None
 
